@@ -1,1 +1,66 @@
-Require Import Gengo.Base.Str.
+(* C16 — deepcopy-gen output compiles and really deep-copies (partial: the theorems are about the
+   copy semantics that the generator's decisions implement, on typed value trees whose reference
+   nodes carry the identity of their storage; that the emitted Go text compiles and has this
+   semantics is exercised by compiling and running it on every run -- correspondence entry
+   C16.copy and the reflection oracle -- not proved.  The full statement "shares no mutable storage"
+   is FALSE of the faithful model for struct fields of array type with reference elements:
+   C16_array_of_references_refuted; this is the recorded known finding.) *)
+Require Import Gengo.Base.Str Gengo.Model.DeepCopy Gengo.Proofs.DeepCopyProofs.
+
+(* the copy is deeply equal to the original: same tree once storage identities are erased,
+   including nil versus empty (a nil reference is VNil, an empty one a node without entries) *)
+Theorem C16_copy_deeply_equal : forall D v t n, erase (snd (fst (cp D t n v))) = erase v.
+Proof. exact cp_erase. Qed.
+Print Assumptions C16_copy_deeply_equal.
+
+(* all storage of the copy is freshly allocated -- for every declaration table in which array
+   types have assignable elements, every type over it and every value of that type *)
+Theorem C16_copy_storage_fresh_partial : forall D, decls_ok D = true -> forall v t n, ty_ok D t = true -> has_type D v t ->
+  let '(n', v', _) := cp D t n v in (n <= n')%N /\ in_range n n' (ids v').
+Proof. exact cp_range. Qed.
+Print Assumptions C16_copy_storage_fresh_partial.
+
+(* hence the copy shares no storage with the original ... *)
+Theorem C16_copy_disjoint_partial : forall D v t, decls_ok D = true -> ty_ok D t = true -> has_type D v t ->
+  let '(_, v', _) := cp D t (N.succ (max_id v)) v in forall i, In i (ids v) -> ~ In i (ids v').
+Proof. exact cp_disjoint. Qed.
+Print Assumptions C16_copy_disjoint_partial.
+
+(* ... which is what the correspondence run observes as an empty list of shared paths ... *)
+Theorem C16_observed_sharing_empty_partial : forall D v t, decls_ok D = true -> ty_ok D t = true -> has_type D v t ->
+  let '(_, v', _) := cp D t (N.succ (max_id v)) v in shared (N.succ (max_id v)) [] v' = [].
+Proof. exact cp_shares_nothing. Qed.
+Print Assumptions C16_observed_sharing_empty_partial.
+
+(* ... and mutating either through any of its storage leaves the other unchanged *)
+Theorem C16_mutation_independent_partial : forall D v t, decls_ok D = true -> ty_ok D t = true -> has_type D v t ->
+  let '(_, v', _) := cp D t (N.succ (max_id v)) v in
+  (forall i f, In i (ids v') -> poke i f v = v) /\ (forall i f, In i (ids v) -> poke i f v' = v').
+Proof. exact cp_mutation_independent. Qed.
+Print Assumptions C16_mutation_independent_partial.
+
+(* a slot whose type has hand-written DeepCopy methods is copied by exactly one call of them *)
+Theorem C16_hand_written_called : forall D t fs n v, resolve D (length D) t = RStruct true fs ->
+  cp D t n v = (let '(n1, v') := fresh n v in (n1, v', 1%N)).
+Proof. exact cp_hand. Qed.
+Print Assumptions C16_hand_written_called.
+
+(* values of an assignable type hold no storage, so copying them by assignment is a deep copy
+   (the use deepcopy-gen makes of types.Type.IsAssignable, cf. C20) *)
+Theorem C16_assignable_holds_no_storage : forall D fuel v t, has_type D v t -> assignable D fuel t = true -> ids v = [].
+Proof. exact assignable_no_ids. Qed.
+Print Assumptions C16_assignable_holds_no_storage.
+
+(* the array condition cannot be dropped: type S struct{ F [1]*int } *)
+Theorem C16_array_of_references_refuted :
+  has_type bad_decls bad_val (TNamed 1) /\ decls_ok bad_decls = false /\
+  let '(_, v', _) := cp bad_decls (TNamed 1) (N.succ (max_id bad_val)) bad_val in
+  In 1%N (ids bad_val) /\ In 1%N (ids v') /\ shared (N.succ (max_id bad_val)) [] v' = [[0; 0]]%N /\
+  poke 1 (fun _ => [(0%N, VS 8)]) bad_val <> bad_val.
+Proof. exact cp_array_of_references_refuted. Qed.
+Print Assumptions C16_array_of_references_refuted.
+
+Example C16_example : decls_ok ok_decls = true /\ ty_ok ok_decls (TNamed 1) = true /\ has_type ok_decls ok_val (TNamed 1) /\
+  let '(_, v', c) := cp ok_decls (TNamed 1) (N.succ (max_id ok_val)) ok_val in
+  erase v' = erase ok_val /\ ids v' = [6; 7; 8; 9; 10]%N /\ c = 0%N.
+Proof. exact ok_example. Qed.
